@@ -43,6 +43,8 @@ pub struct MkfsParams {
     pub total_sectors: u32,
     pub pad_sectors: u32,
     pub gg: GenGeom,
+    /// untouched bytes read as zero (large sparse volumes: zero writes stay free of cost)
+    pub zero_fill: bool,
 }
 
 fn put16(s: &mut [u8], o: usize, v: u16) {
@@ -93,7 +95,8 @@ pub fn mkfs(p: &MkfsParams) -> Result<Store, String> {
     }
     let vol_bytes = total * bps;
     let dev_bytes = vol_bytes + p.pad_sectors as u64 * bps;
-    let mut st = if dev_bytes <= (4 << 20) { Store::dense(dev_bytes as usize, GARBAGE) } else { Store::sparse(dev_bytes, GARBAGE) };
+    let fill = if p.zero_fill { 0 } else { GARBAGE };
+    let mut st = if dev_bytes <= (4 << 20) { Store::dense(dev_bytes as usize, fill) } else { Store::sparse(dev_bytes, fill) };
     // boot sector
     let mut b = vec![0u8; bps as usize];
     b[0] = 0xEB;
@@ -155,9 +158,15 @@ pub fn mkfs(p: &MkfsParams) -> Result<Store, String> {
         }
     }
     // FATs
-    let zeros = vec![0u8; (fatsz * bps) as usize];
+    let chunk = vec![0u8; 1 << 20];
     for c in 0..nfats {
-        st.write_at((rsvd + c * fatsz) * bps, &zeros);
+        let mut o = 0u64;
+        let total_b = fatsz * bps;
+        while o < total_b {
+            let n = (total_b - o).min(chunk.len() as u64) as usize;
+            st.write_at((rsvd + c * fatsz) * bps + o, &chunk[..n]);
+            o += n as u64;
+        }
     }
     let g = Geom::parse(&st).map_err(|e| format!("imggen produced a boot sector refdec rejects: {}", e))?;
     let eoc = g.eoc_min() + (p.gg.eoc as u32 & 7);
@@ -222,7 +231,7 @@ pub fn mkfs(p: &MkfsParams) -> Result<Store, String> {
     // inactive copies hold garbage when mirroring is off
     if let (32, Some(act)) = (width, p.gg.mirror_off) {
         for c in 0..nfats {
-            if c != act as u64 {
+            if c != act as u64 && !p.zero_fill {
                 let junk: Vec<u8> = (0..(fatsz * bps) as usize).map(|i| (i as u8).wrapping_mul(37) ^ 0x5A).collect();
                 st.write_at((rsvd + c * fatsz) * bps, &junk);
             }
